@@ -18,14 +18,14 @@ from setuptools import setup, Extension
 from Cython.Build import cythonize
 import numpy
 ext = Extension(name='pylife.rainflow_ext', sources=['extension.pyx'],
-                include_dirs=[numpy.get_include()], extra_compile_args=['-O1'])
+                include_dirs=[numpy.get_include()], extra_compile_args=['-O3'])
 setup(name='rfext', ext_modules=cythonize([ext], language_level=3, quiet=True))
 """
 
 
 def build(log=print):
     pyx = os.path.join(core.REPO, PYX)
-    h = hashlib.sha256(open(pyx, "rb").read()).hexdigest()[:20]
+    h = hashlib.sha256(open(pyx, "rb").read() + SETUP.encode()).hexdigest()[:20]      # source + build recipe (-O3, as /repo/setup.py)
     cache = os.path.join(core.VERIF, ".cache", "ext", h)
     so = None
     if os.path.isdir(cache):
